@@ -6,6 +6,7 @@ LOG_TARGETS = [(OP, 'SO3_Log.forward'), (OP, 'so3_Jl_inv'), (OP, 'rxso3_Ws')]
 GD_EXCEPTIONS = {('SO3_Log.forward', 'Slice(Constant(3))'): ('|v|<=eps on a unit quaternion implies |w|~1, division by w is safe', "'norm'")}
 
 
+@guarded
 def rule_pair(repo):
     res = RuleResult('C02.PAIR', 'inverse pairing per family: where Exp applies coupling helper H to the translation slot, Log applies '
                      'the paired inverse (H_inv(.) or H(.).inverse()) to the translation slot, evaluated at the family\'s own rotation '
@@ -145,6 +146,7 @@ def _interval(e, env):
     return None
 
 
+@guarded
 def rule_range(repo):
     res = RuleResult('C02.RANGE', 'principal range by interval analysis: in every branch of SO3_Log whose factor is ANGLE / |v| the numerator '
                      'ANGLE lies in [-pi, pi] (atan in (-pi/2, pi/2), atan2 of a non-negative first argument in [0, pi], pm in [-1, 1]), so the '
